@@ -40,14 +40,15 @@ Definition fid_of (p : point) : list Z := removelast p.
 
 (* ---------------------------------------------------------------- the operands *)
 (* a fiber operand: stored (coordinate, payload) elements.  a_fiber.__iter__(tick=False) is
-   iterOccupancy: elements whose payload equals the default 0 are not presented
-   (iterators.py:172) *)
-Definition occ (f : list (Z * Z)) : list Z :=
-  map fst (filter (fun cv => negb (Z.eqb (snd cv) 0)) f).
+   iterOccupancy: elements whose payload equals the fiber's default d are not presented
+   (iterators.py:172).  A fiber whose default is None ("no empty value") is modelled by a d that
+   no payload equals: every stored element, zeros included, is presented. *)
+Definition occ (d : Z) (f : list (Z * Z)) : list Z :=
+  map fst (filter (fun cv => negb (Z.eqb (snd cv) d)) f).
 
 (* one two-operand intersection inside the loop nest: the outer loop coordinates (the part
-   Metrics.point[:i] of every row), and the two operands *)
-Record fpair := { f_id : list Z; f_a : list (Z * Z); f_b : list (Z * Z) }.
+   Metrics.point[:i] of every row), the default of the two operands, and the two operands *)
+Record fpair := { f_id : list Z; f_d : Z; f_a : list (Z * Z); f_b : list (Z * Z) }.
 
 (* ---------------------------------------------------------------- trace emission *)
 (* event of one side: (K_pos stamp, coordinate, fiber_pos) *)
@@ -98,7 +99,7 @@ Definition stamps (all : list (list Z)) (f : list Z) : list Z :=
 
 (* rows of both sides for one intersection *)
 Definition fiber_rows (all : list (list Z)) (p : fpair) : list row * list row :=
-  let r := and_ev (occ (f_a p)) (occ (f_b p)) 0 0 0 in
+  let r := and_ev (occ (f_d p) (f_a p)) (occ (f_d p) (f_b p)) 0 0 0 in
   let st := stamps all (f_id p) in
   (map (mk_row st (f_id p)) (fst r), map (mk_row st (f_id p)) (snd r)).
 
@@ -267,6 +268,39 @@ Definition lf_feed (side : bool) all d segs :=
   feed (fun s c => Some (lf_add s c)) ist0
        (map (fun c : list row * list row => if side then snd c else fst c) (calls_of all d segs)).
 
+(* ---------------------------------------------------------------- leader-follower style *)
+(* Fiber.intersection(a, b, style="leader-follower") (iterators.py:521-553): for the i-th element
+   the leader presents, one intersect_0 row (c, i) and one lookup in the follower,
+   b.getPayload(c, trace="intersect_1"), which logs (c, index) with index = position of the first
+   stored follower coordinate >= c (fiber.py:830-843, _coord2pos) whether or not c is stored there
+   -- also when the search runs off the end of the follower or the follower is empty.  The lazy
+   result is walked by iterRange(tick=True): one incIter per leader element, so K_pos = i. *)
+Definition lfs_ev (a bstored : list Z) : list ev * list ev :=
+  let ia := combine (map Z.of_nat (seq 0 (length a))) a in
+  (map (fun ic => (fst ic, snd ic, fst ic)) ia,
+   map (fun ic => (fst ic, snd ic,
+                   Z.of_nat (length (filter (fun y => Z.ltb y (snd ic)) bstored)))) ia).
+
+Definition lfs_fiber_rows (all : list (list Z)) (p : fpair) : list row * list row :=
+  let r := lfs_ev (occ (f_d p) (f_a p)) (map fst (f_b p)) in
+  let st := stamps all (f_id p) in
+  (map (mk_row st (f_id p)) (fst r), map (mk_row st (f_id p)) (snd r)).
+
+Definition lfs_batch_rows (all : list (list Z)) (seg : list fpair) : list row * list row :=
+  (flat_map (fun p => fst (lfs_fiber_rows all p)) seg,
+   flat_map (fun p => snd (lfs_fiber_rows all p)) seg).
+
+Definition lfs_calls_of (all : list (list Z)) (d : nat) (segs : list (list fpair))
+  : list (list row * list row) :=
+  with_header (header d) (map (lfs_batch_rows all) segs).
+
+Definition lfs_feed (side : bool) all d segs :=
+  feed (fun s c => Some (lf_add s c)) ist0
+       (map (fun c : list row * list row => if side then snd c else fst c) (lfs_calls_of all d segs)).
+
+(* every element the leader holds is presented once, to the model of either operand *)
+Definition led (a b : list Z) : Z := Z.of_nat (length a).
+
 (* ---------------------------------------------------------------- reference quantities *)
 (* the textbook two-finger merge of two coordinate lists, as the list of its comparison
    steps until either list is exhausted *)
@@ -310,7 +344,7 @@ Definition presented (a b : list Z) : Z :=
 Definition sumZ' (l : list Z) : Z := fold_right Z.add 0 l.
 
 Definition total (q : list Z -> list Z -> Z) (fs : list fpair) : Z :=
-  sumZ' (map (fun p => q (occ (f_a p)) (occ (f_b p))) fs).
+  sumZ' (map (fun p => q (occ (f_d p) (f_a p)) (occ (f_d p) (f_b p))) fs).
 
 (* set-style closed form of the two-finger count: elements of either list that are not
    beyond the other list's last element, matches counted once *)
